@@ -35,8 +35,10 @@ CFGS = {
                                      "-DMIR_MAX_INSNS_FOR_CALL_INLINE=0"]},
     "allinl": {"cc": "gcc", "flags": ["-O2", "-g1", "-DNDEBUG", "-DMIR_MAX_INSNS_FOR_INLINE=100000",
                                       "-DMIR_MAX_INSNS_FOR_CALL_INLINE=100000",
-                                      "-DMIR_MAX_FUNC_INLINE_GROWTH=10000000",
-                                      "-DMIR_MAX_CALLER_SIZE_FOR_ANY_GROWTH_INLINE=10000000"]},
+                                      # every call and inline insn is inlined whatever the callee size, until the caller has grown
+                                      # 6 times and beyond 1500 insns (without a bound nested call chains grow exponentially)
+                                      "-DMIR_MAX_FUNC_INLINE_GROWTH=600",
+                                      "-DMIR_MAX_CALLER_SIZE_FOR_ANY_GROWTH_INLINE=1500"]},
 }
 
 LIB_TUS = ["mir.c", "mir-gen.c", "c2mir/c2mir.c"]
